@@ -5,6 +5,10 @@
 // WINDOW_UPDATE events up to a depth bound is replayed on a fresh relay, each event followed by
 // run-to-quiescence, and the byte ledger invariants I1-I4 are evaluated in every reached state. A second
 // part runs DATA and WINDOW_UPDATE scripts concurrently from both sides under schedule exploration.
+//
+// The reference model (oracle.go) keeps one ledger per direction of DATA flow, so that scenarios in which both
+// endpoints send DATA and grant credit are judged in both directions; families.go holds the families added by
+// the audit (AUDIT.md).
 package main
 
 import (
@@ -23,7 +27,7 @@ import (
 // ev is one environment event. Dir "snd" = sent by the DATA sender, "rcv" = sent by the DATA receiver.
 type ev struct {
 	Who    string `json:"who"` // snd | rcv
-	T      string `json:"t"`   // data | iws | mfs | wu | hdr (the sender's first HEADERS on the stream) | iws2 (one SETTINGS frame carrying INITIAL_WINDOW_SIZE twice: N then N2)
+	T      string `json:"t"`   // data | iws | mfs | wu | hdr (the sender's first HEADERS on the stream) | iws2 (one SETTINGS frame carrying INITIAL_WINDOW_SIZE twice: N then N2) | ack (SETTINGS acknowledgement: Who acknowledges the oldest SETTINGS frame of its peer that it has not acknowledged yet)
 	Stream uint32 `json:"s,omitempty"`
 	N      int    `json:"n,omitempty"` // data length / setting value / increment
 	N2     int    `json:"n2,omitempty"`
@@ -32,6 +36,15 @@ type ev struct {
 }
 
 func (e ev) String() string {
+	s := e.str()
+	if e.Who == "rcv" && e.T == "data" || e.Who == "snd" && e.T != "data" && e.T != "hdr" && e.T != "ack" {
+		// an event of the reverse direction (DATA from the forward receiver, a grant from the forward sender)
+		s = "rev:" + s
+	}
+	return s
+}
+
+func (e ev) str() string {
 	switch e.T {
 	case "data":
 		return fmt.Sprintf("DATA(s%d,%d,pad%d,es=%v)", e.Stream, e.N, e.Pad, e.ES)
@@ -43,6 +56,8 @@ func (e ev) String() string {
 		return fmt.Sprintf("HEADERS(s%d)", e.Stream)
 	case "mfs":
 		return fmt.Sprintf("SETTINGS(MFS=%d)", e.N)
+	case "ack":
+		return e.Who + ":SETTINGS_ACK"
 	}
 	return fmt.Sprintf("WU(s%d,+%d)", e.Stream, e.N)
 }
@@ -52,10 +67,10 @@ type scenario struct {
 	RootIWS int    `json:"rootiws"` // receiver's initial INITIAL_WINDOW_SIZE (-1 = default 65535)
 	Hist    []ev   `json:"hist"`
 	// concurrent part: the two scripts run in parallel threads under schedule exploration
-	Conc  bool `json:"conc,omitempty"`
+	Conc      bool `json:"conc,omitempty"`
 	SndScript []ev `json:"snd,omitempty"`
 	RcvScript []ev `json:"rcv,omitempty"`
-	Bound int  `json:"bound,omitempty"`
+	Bound     int  `json:"bound,omitempty"`
 	// burst: the receiver stalls (does not read, its socket buffer is tiny) while the sender writes Burst DATA
 	// frames of one byte each, all within the windows; then the receiver resumes and nothing else is sent.
 	Burst int `json:"burst,omitempty"`
@@ -66,23 +81,56 @@ type scenario struct {
 	// LateHeaders (s2c only): the server's response HEADERS are not part of the opening but events of the
 	// history, so that the client can grant stream credit before anything was relayed toward it on the stream.
 	LateHeaders bool `json:"lateheaders,omitempty"`
+	// Duplex: DATA flows in both directions. The server's response HEADERS are part of the opening whatever Dir is,
+	// the forward sender's opening SETTINGS carry INITIAL_WINDOW_SIZE = RevRootIWS (-1 = default), and events with
+	// Who "rcv" and T "data" are DATA frames of the reverse direction, which events of Who "snd" (iws, mfs, wu)
+	// grant credit for. Both directions are judged by the same four invariants.
+	Duplex     bool `json:"duplex,omitempty"`
+	RevRootIWS int  `json:"revrootiws"`
+	// RootMFS > 0: the receiver's opening SETTINGS frame also carries this MAX_FRAME_SIZE.
+	RootMFS int `json:"rootmfs,omitempty"`
+	// AckRoot: both endpoints acknowledge the opening SETTINGS frames (as real peers do), so that a later "ack"
+	// event acknowledges a SETTINGS frame of the history.
+	AckRoot bool `json:"ackroot,omitempty"`
+	// Stall (with Burst): frames the receiver sends after the burst while it is still not reading.
+	Stall []ev `json:"stall,omitempty"`
+	// Proc: comma separated stream processor factories installed in h2.Config (identity | nil | c2s-only | s2c-only);
+	// all of them forward every call unchanged, so the oracle is the same as without them.
+	Proc string `json:"proc,omitempty"`
+	// Fam names the family of the audit extensions the scenario belongs to ("" = the families that existed before).
+	Fam string `json:"fam,omitempty"`
 }
 
 type finding struct{ Sig, Desc string }
 
-type ledger struct {
-	iws      int
-	mfs      int
-	winConn  int
-	win      map[uint32]int
-	recvSeen int // number of receiver-side events already accounted
-	sentFlow map[uint32]int
-	sentFlowConn int
-	sentPay  map[uint32]int
-	chunks   map[uint32][]int // relay's re-chunking of accepted DATA per stream (payload sizes)
-	recvPay  map[uint32]int
-	esSent   map[uint32]bool
-	padSeen  bool
+// extras renders the scenario fields that are not part of every scenario (for violation descriptions).
+func (sc scenario) extras() string {
+	s := ""
+	if sc.Fam != "" {
+		s += " family " + sc.Fam
+	}
+	if sc.Duplex {
+		s += fmt.Sprintf(" duplex (reverse root IWS %d)", sc.RevRootIWS)
+	}
+	if sc.RootMFS > 0 {
+		s += fmt.Sprintf(" root MFS %d", sc.RootMFS)
+	}
+	if sc.AckRoot {
+		s += " opening SETTINGS acknowledged"
+	}
+	if sc.ConnUsed > 0 {
+		s += fmt.Sprintf(" connection window used %d", sc.ConnUsed)
+	}
+	if sc.LateHeaders {
+		s += " late HEADERS"
+	}
+	if sc.Burst > 0 {
+		s += fmt.Sprintf(" burst %d stalled-receiver frames %v", sc.Burst, sc.Stall)
+	}
+	if sc.Proc != "" {
+		s += " processors " + sc.Proc
+	}
+	return s
 }
 
 func spec(e ev) hw.Spec {
@@ -97,8 +145,17 @@ func spec(e ev) hw.Spec {
 		return hw.Spec{T: "headers", Stream: e.Stream, Fields: [][2]string{{":status", "200"}}}
 	case "mfs":
 		return hw.Spec{T: "settings", Settings: [][2]uint32{{5, uint32(e.N)}}}
+	case "ack":
+		return hw.Spec{T: "settings_ack"}
 	}
 	return hw.Spec{T: "wu", Stream: e.Stream, Incr: uint32(e.N)}
+}
+
+func opposite(dir string) string {
+	if dir == "c2s" {
+		return "s2c"
+	}
+	return "c2s"
 }
 
 func run(sc scenario) (body func(), check func(r *vrt.Result) []finding) {
@@ -115,7 +172,7 @@ func run(sc scenario) (body func(), check func(r *vrt.Result) []finding) {
 			}
 			fs = append(fs, finding{sig, fmt.Sprintf(format, a...)})
 		}
-		opts := hw.Options{}
+		opts := hw.Options{Factories: factories(sc.Proc)}
 		var stall *vrt.Gate
 		if sc.Burst > 0 {
 			stall = &vrt.Gate{}
@@ -140,159 +197,75 @@ func run(sc scenario) (body func(), check func(r *vrt.Result) []finding) {
 		if sc.RootIWS >= 0 {
 			rootSettings = append(rootSettings, [2]uint32{4, uint32(sc.RootIWS)})
 		}
+		if sc.RootMFS > 0 {
+			rootSettings = append(rootSettings, [2]uint32{5, uint32(sc.RootMFS)})
+		}
+		revRoot := -1
+		sndSettings := [][2]uint32{}
+		if sc.Duplex && sc.RevRootIWS >= 0 {
+			revRoot = sc.RevRootIWS
+			sndSettings = append(sndSettings, [2]uint32{4, uint32(revRoot)})
+		}
 		rcv.Write(hw.Spec{T: "settings", Settings: rootSettings})
-		snd.Write(hw.Spec{T: "settings"})
+		snd.Write(hw.Spec{T: "settings", Settings: sndSettings})
 		vrt.WaitQuiescent()
+		if sc.AckRoot {
+			// like real peers, both endpoints acknowledge the opening SETTINGS frame that was relayed to them
+			snd.Write(hw.Spec{T: "settings_ack"})
+			rcv.Write(hw.Spec{T: "settings_ack"})
+			vrt.WaitQuiescent()
+		}
 		// open streams 1 and 3 (client always opens; for s2c the server answers with response headers)
 		w.Client.Write(hw.Spec{T: "headers", Stream: 1, Fields: [][2]string{{":method", "POST"}, {":path", "/a"}, {":scheme", "https"}, {":authority", "o"}}})
 		w.Client.Write(hw.Spec{T: "headers", Stream: 3, Fields: [][2]string{{":method", "POST"}, {":path", "/b"}, {":scheme", "https"}, {":authority", "o"}}})
 		vrt.WaitQuiescent()
-		if sc.Dir == "s2c" && !sc.LateHeaders {
+		if (sc.Dir == "s2c" || sc.Duplex) && !sc.LateHeaders {
 			w.Server.Write(hw.Spec{T: "headers", Stream: 1, Fields: [][2]string{{":status", "200"}}})
 			w.Server.Write(hw.Spec{T: "headers", Stream: 3, Fields: [][2]string{{":status", "200"}}})
 			vrt.WaitQuiescent()
 		}
-		L := &ledger{iws: 65535, mfs: 16384, winConn: 65535, win: map[uint32]int{}, sentFlow: map[uint32]int{}, sentPay: map[uint32]int{}, chunks: map[uint32][]int{}, recvPay: map[uint32]int{}, esSent: map[uint32]bool{}}
-		if sc.RootIWS >= 0 {
-			L.iws = sc.RootIWS
-		}
-		L.win[1], L.win[3] = L.iws, L.iws
 		streams := []uint32{1, 3}
+		fwd := newLedger(sc.Dir, sc.Dir, false, snd, rcv, sc.RootIWS, sc.RootMFS, streams)
+		rev := newLedger(opposite(sc.Dir), sc.Dir, true, rcv, snd, revRoot, 0, streams)
 		if sc.ConnUsed > 0 {
-			streams = append(streams, 5)
-			L.win[5] = L.iws
-		}
-		dataSeen := 0 // receiver-side DATA events already processed
-		applyGrant := func(e ev) {
-			switch e.T {
-			case "iws", "iws2":
-				v := e.N
-				if e.T == "iws2" {
-					v = e.N2 // settings are processed in the order they appear: the last value is the one in force
-				}
-				d := v - L.iws
-				L.iws = v
-				for s := range L.win {
-					L.win[s] += d
-				}
-			case "mfs":
-				L.mfs = e.N
-			case "wu":
-				if e.Stream == 0 {
-					L.winConn += e.N
-				} else {
-					L.win[e.Stream] += e.N
-				}
-			}
-		}
-		applySend := func(e ev) {
-			fl := e.N
-			if e.Pad > 0 {
-				fl += e.Pad
-				L.padSeen = true
-			}
-			L.sentFlow[e.Stream] += fl
-			L.sentFlowConn += fl
-			L.sentPay[e.Stream] += e.N
-			// the relay re-chunks the payload at the receiver's max frame size in force when it accepts the frame
-			n := e.N
-			if n == 0 {
-				L.chunks[e.Stream] = append(L.chunks[e.Stream], 0)
-			}
-			for n > 0 {
-				c := n
-				if c > L.mfs {
-					c = L.mfs
-				}
-				L.chunks[e.Stream] = append(L.chunks[e.Stream], c)
-				n -= c
-			}
+			fwd.addStream(5)
+			rev.addStream(5)
 		}
 		evalState := func(ctx string) {
-			// I1 / I2 on newly arrived DATA at the receiver
-			for ; dataSeen < len(rcv.Recv); dataSeen++ {
-				d := rcv.Recv[dataSeen]
-				if d.T != "data" {
-					if d.MaxFrame > L.mfs && (d.T == "headers" || d.T == "push") {
-						add(sc.Dir+":I2:frame_exceeds_max_frame_size:"+d.T, "%s: %s frame of %d bytes exceeds the receiver's MAX_FRAME_SIZE %d", ctx, d.T, d.MaxFrame, L.mfs)
-					}
-					continue
-				}
-				if d.MaxFrame > L.mfs {
-					add(sc.Dir+":I2:frame_exceeds_max_frame_size:data", "%s: DATA frame of %d bytes exceeds the receiver's MAX_FRAME_SIZE %d", ctx, d.MaxFrame, L.mfs)
-				}
-				if d.FlowLen > L.win[d.Stream] {
-					add(sc.Dir+":I1:stream_window_exceeded", "%s: DATA of %d flow-controlled bytes on stream %d but the receiver's stream window was %d", ctx, d.FlowLen, d.Stream, L.win[d.Stream])
-				}
-				if d.FlowLen > L.winConn {
-					add(sc.Dir+":I1:connection_window_exceeded", "%s: DATA of %d flow-controlled bytes but the receiver's connection window was %d", ctx, d.FlowLen, L.winConn)
-				}
-				L.win[d.Stream] -= d.FlowLen
-				L.winConn -= d.FlowLen
-				L.recvPay[d.Stream] += len(d.Data)
+			fwd.eval(ctx, add)
+			rev.eval(ctx, add)
+			k := fwd.key()
+			if sc.Duplex {
+				k += " | " + rev.key()
 			}
-			// I3 credit returned to the sender
-			cred := map[uint32]int{}
-			for _, e := range snd.Recv {
-				if e.T == "wu" {
-					cred[e.Stream] += int(e.Incr)
-				}
+			stateKeys = append(stateKeys, k)
+		}
+		// account applies e to the reference model: DATA goes to the ledger of the direction it flows in, everything
+		// a peer says about what it is willing to receive goes to the ledger of the opposite direction
+		account := func(e ev) {
+			dataL, grantL := fwd, rev
+			if e.Who == "rcv" {
+				dataL, grantL = rev, fwd
 			}
-			cls := ""
-			if L.padSeen {
-				cls = ":padded"
+			switch e.T {
+			case "data":
+				dataL.applySend(e)
+			case "iws", "iws2", "mfs", "wu":
+				grantL.applyGrant(e)
 			}
-			if cred[0] != L.sentFlowConn {
-				add(sc.Dir+":I3:connection_credit_mismatch"+cls, "%s: sender has sent %d flow-controlled bytes but was returned %d bytes of connection credit", ctx, L.sentFlowConn, cred[0])
+		}
+		deliver := func(e ev) {
+			if e.Who == "snd" {
+				snd.Write(spec(e))
+			} else {
+				rcv.Write(spec(e))
 			}
-			for _, s := range streams {
-				if cred[s] != L.sentFlow[s] {
-					add(sc.Dir+":I3:stream_credit_mismatch"+cls, "%s: sender has sent %d flow-controlled bytes on stream %d but was returned %d bytes of stream credit", ctx, L.sentFlow[s], s, cred[s])
-				}
-			}
-			// the receiver sends no DATA in these histories: it is owed no credit at all
-			for _, e := range rcv.Recv {
-				if e.T == "wu" {
-					add(sc.Dir+":I3:credit_sent_to_the_receiver", "%s: the receiver, which sent no DATA, was sent WINDOW_UPDATE(stream %d, +%d)", ctx, e.Stream, e.Incr)
-					break
-				}
-			}
-			for s, c := range cred {
-				if s != 0 && s != 1 && s != 3 && !(s == 5 && sc.ConnUsed > 0) && c != 0 {
-					add(sc.Dir+":I3:credit_for_unknown_stream", "%s: credit returned for stream %d which carried no DATA", ctx, s)
-				}
-			}
-			// I4 stranding (frame granularity: the relay's own chunks)
-			for _, s := range streams {
-				delivered := L.recvPay[s]
-				for _, c := range L.chunks[s] {
-					if delivered >= c && c > 0 {
-						delivered -= c
-						continue
-					}
-					if delivered > 0 {
-						break // mid-chunk: cannot happen, reported by the integrity check below
-					}
-					if c == 0 {
-						// zero-length chunk: delivered iff the receiver saw it; count frames instead
-						break
-					}
-					if c <= L.win[s] && c <= L.winConn {
-						add(sc.Dir+":I4:stranded_data", "%s: %d bytes are pending on stream %d with stream window %d and connection window %d but were not delivered", ctx, c, s, L.win[s], L.winConn)
-					}
-					break
-				}
-				if L.recvPay[s] > L.sentPay[s] {
-					add(sc.Dir+":integrity:more_received_than_sent", "%s: stream %d received %d payload bytes, only %d were sent", ctx, s, L.recvPay[s], L.sentPay[s])
-				}
-			}
-			stateKeys = append(stateKeys, fmt.Sprintf("w1=%d w3=%d wc=%d p1=%d p3=%d mfs=%d", L.win[1], L.win[3], L.winConn, L.sentPay[1]-L.recvPay[1], L.sentPay[3]-L.recvPay[3], L.mfs))
 		}
 		evalState("opening")
 		if sc.ConnUsed > 0 {
 			w.Client.Write(hw.Spec{T: "headers", Stream: 5, Fields: [][2]string{{":method", "POST"}, {":path", "/c"}, {":scheme", "https"}, {":authority", "o"}}})
 			vrt.WaitQuiescent()
-			if sc.Dir == "s2c" {
+			if sc.Dir == "s2c" || sc.Duplex {
 				w.Server.Write(hw.Spec{T: "headers", Stream: 5, Fields: [][2]string{{":status", "200"}}})
 				vrt.WaitQuiescent()
 			}
@@ -302,8 +275,8 @@ func run(sc scenario) (body func(), check func(r *vrt.Result) []finding) {
 					n = 16384
 				}
 				e := ev{Who: "snd", T: "data", Stream: 5, N: n}
-				applySend(e)
-				snd.Write(spec(e))
+				account(e)
+				deliver(e)
 				left -= n
 			}
 			vrt.WaitQuiescent()
@@ -311,54 +284,45 @@ func run(sc scenario) (body func(), check func(r *vrt.Result) []finding) {
 		}
 		if sc.Burst > 0 {
 			// the receiver's reader was gated from the start: the opening frames toward it are still queued, which is
-			// part of the stall. The sender now bursts; then the receiver resumes; at quiescence everything that the
-			// windows allow must have been delivered although no further input arrives.
+			// part of the stall. The sender now bursts; the receiver, still not reading, may send grants (Stall); then
+			// the receiver resumes; at quiescence everything that the windows allow must have been delivered although
+			// no further input arrives.
 			for i := 0; i < sc.Burst; i++ {
 				e := ev{Who: "snd", T: "data", Stream: 1, N: 1}
-				applySend(e)
-				snd.Write(spec(e))
+				account(e)
+				deliver(e)
 			}
 			vrt.WaitQuiescent()
+			for _, e := range sc.Stall {
+				account(e)
+				deliver(e)
+				vrt.WaitQuiescent()
+			}
 			stall.Open()
 			vrt.WaitQuiescent()
-			evalState(fmt.Sprintf("after a burst of %d one-byte DATA frames toward a stalled receiver that then resumed", sc.Burst))
+			ctx := fmt.Sprintf("after a burst of %d one-byte DATA frames toward a stalled receiver that then resumed", sc.Burst)
+			if len(sc.Stall) > 0 {
+				ctx = fmt.Sprintf("after a burst of %d one-byte DATA frames toward a stalled receiver that sent %v while stalled and then resumed", sc.Burst, sc.Stall)
+			}
+			evalState(ctx)
 		} else if !sc.Conc {
 			for i, e := range sc.Hist {
-				if e.T == "mfs" && e.N < L.mfs {
-					// lowering MAX_FRAME_SIZE is judged only when nothing accepted earlier is still queued in the
-					// relay (frames already cut at the old size are the receiver's own race with its SETTINGS)
-					pending := false
-					for _, s := range streams {
-						if L.sentPay[s] != L.recvPay[s] {
-							pending = true
-						}
-					}
-					if pending {
-						vrt.Log("history cut at event %d: MAX_FRAME_SIZE lowered with data still queued", i+1)
-						break
-					}
-				}
-				if e.Who == "snd" && e.T != "data" {
-					// SETTINGS / WINDOW_UPDATE from the DATA sender concern the opposite direction only (in which
-					// nothing flows here): they must change nothing of what the ledger tracks
-					snd.Write(spec(e))
-				} else if e.Who == "snd" {
-					applySend(e)
-					snd.Write(spec(e))
-				} else {
-					applyGrant(e)
-					rcv.Write(spec(e))
-				}
+				// A lowering of MAX_FRAME_SIZE while accepted DATA is still queued does not end the history (it used
+				// to): the ledger judges frames cut at the old size from the moment the receiver has seen the lowering
+				// acknowledged. SETTINGS / WINDOW_UPDATE from the DATA sender concern the opposite direction only: in
+				// the one-directional families nothing flows there and they must change nothing of what is tracked.
+				account(e)
+				deliver(e)
 				vrt.WaitQuiescent()
 				evalState(fmt.Sprintf("after event %d %s", i+1, e))
 			}
 		} else {
 			// grants are applied before evaluating (only the final state is judged for I1 with all grants in force)
 			for _, e := range sc.SndScript {
-				applySend(e)
+				account(e)
 			}
 			for _, e := range sc.RcvScript {
-				applyGrant(e)
+				account(e)
 			}
 			var ss, rs []hw.Spec
 			for _, e := range sc.SndScript {
@@ -435,9 +399,30 @@ func alphabet(tier string, reduced bool) []ev {
 }
 
 // legal prunes histories the statement does not cover (data after END_STREAM) and no-op SETTINGS.
-func legal(h []ev) bool {
-	ended := map[uint32]bool{}
-	mfs := 16384
+func legal(h []ev) bool { return legalFor(h, scenario{RootIWS: -1, RevRootIWS: -1}) }
+
+// legalFor is legal for a history that continues the opening described by base. Besides the above it prunes
+// acknowledgements of SETTINGS frames that were never sent and receivers that break the protocol themselves by
+// granting a window above 2^31-1 (counted conservatively: consumption is ignored).
+func legalFor(h []ev, base scenario) bool {
+	const maxWindow = 1<<31 - 1
+	ended := map[string]bool{}
+	mfs := map[string]int{"snd": 16384, "rcv": 16384}
+	if base.RootMFS > 0 {
+		mfs["rcv"] = base.RootMFS
+	}
+	iws := map[string]int{"snd": 65535, "rcv": 65535}
+	if base.RootIWS >= 0 {
+		iws["rcv"] = base.RootIWS
+	}
+	if base.Duplex && base.RevRootIWS >= 0 {
+		iws["snd"] = base.RevRootIWS
+	}
+	granted := map[string]int{} // who/stream -> sum of increments
+	unacked := map[string]int{"snd": 1, "rcv": 1}
+	if base.AckRoot {
+		unacked["snd"], unacked["rcv"] = 0, 0
+	}
 	late := false
 	for _, e := range h {
 		if e.T == "hdr" {
@@ -456,18 +441,50 @@ func legal(h []ev) bool {
 			return false // DATA before the stream's HEADERS
 		}
 		if e.T == "data" {
-			if ended[e.Stream] {
+			k := fmt.Sprint(e.Who, e.Stream)
+			if ended[k] {
 				return false
 			}
 			if e.ES {
-				ended[e.Stream] = true
+				ended[k] = true
 			}
 		}
 		if e.T == "mfs" {
-			if e.N == mfs {
+			if e.N == mfs[e.Who] {
 				return false // announcing the value already in force: same state
 			}
-			mfs = e.N
+			mfs[e.Who] = e.N
+		}
+		switch e.T {
+		case "iws", "iws2", "mfs":
+			unacked[e.Who]++
+		case "ack":
+			peer := "rcv"
+			if e.Who == "rcv" {
+				peer = "snd"
+			}
+			if unacked[peer] == 0 {
+				return false
+			}
+			unacked[peer]--
+		}
+		switch e.T {
+		case "iws":
+			iws[e.Who] = e.N
+		case "iws2":
+			iws[e.Who] = e.N2
+		case "wu":
+			granted[fmt.Sprint(e.Who, e.Stream)] += e.N
+		}
+		if e.T == "iws" || e.T == "iws2" || e.T == "wu" {
+			for _, s := range []uint32{1, 3, 5} {
+				if iws[e.Who]+granted[fmt.Sprint(e.Who, s)] > maxWindow {
+					return false
+				}
+			}
+			if 65535+granted[fmt.Sprint(e.Who, 0)] > maxWindow {
+				return false
+			}
 		}
 	}
 	return true
@@ -658,7 +675,7 @@ func scenarios(tier string) []scenario {
 			}
 		}
 	}
-	return out
+	return append(out, auditScenarios(tier)...)
 }
 
 type shardOut struct {
@@ -711,8 +728,19 @@ func main() {
 			deadline = time.Now().Add(40 * time.Minute)
 		}
 		seen := map[string]bool{}
+		only := os.Getenv("C09_ONLY") // development aid: run only the families whose name contains this
+		if only != "" {
+			out.Incomplete = "C09_ONLY filter in force"
+		}
 		for si, sc := range scen {
 			if si%n != i {
+				continue
+			}
+			fam := sc.Fam
+			if fam == "" {
+				fam = "core"
+			}
+			if only != "" && !strings.Contains(fam, only) {
 				continue
 			}
 			if time.Now().After(deadline) {
@@ -729,7 +757,7 @@ func main() {
 				for _, f := range check(r) {
 					if !seen[f.Sig] {
 						seen[f.Sig] = true
-						out.Violations = append(out.Violations, lib.Violation{Sig: f.Sig, Desc: fmt.Sprintf("scenario %s root IWS %d history %v%v%v schedule %v: %s", sc.Dir, sc.RootIWS, sc.Hist, sc.SndScript, sc.RcvScript, r.ChoiceSeq(), f.Desc),
+						out.Violations = append(out.Violations, lib.Violation{Sig: f.Sig, Desc: fmt.Sprintf("scenario %s root IWS %d%s history %v%v%v schedule %v: %s", sc.Dir, sc.RootIWS, sc.extras(), sc.Hist, sc.SndScript, sc.RcvScript, r.ChoiceSeq(), f.Desc),
 							Replay: map[string]interface{}{"scenario": sc, "schedule": r.ChoiceSeq()}})
 					}
 				}
@@ -747,6 +775,7 @@ func main() {
 				out.Counters["history_events"] += int64(len(sc.Hist))
 			}
 			out.Counters["executions"] += int64(st.Execs)
+			out.Counters["family_"+fam] += int64(st.Execs)
 			out.Counters["points"] += st.Points
 			out.Counters["horizon_hits"] += int64(st.HorizonHits)
 			if !st.Exhaustive {
@@ -792,8 +821,8 @@ func main() {
 	rep.Coverage["transitions"] = rep.Counter("history_events") + rep.Counter("concurrent_executions")
 	rep.Coverage["traces_validated_against_impl"] = rep.Counter("executions")
 	rep.Coverage["exhaustive"] = rep.Incomplete == ""
-	rep.Coverage["bounds"] = fmt.Sprintf("%d scenarios: all event histories (21-event alphabet to depth 3 (quick) / 4 (thorough), 12-event alphabet to depth 4 / 5) from receiver initial windows {0,4,default}, both directions, each event followed by run-to-quiescence and invariants I1-I4 evaluated in every state; plus histories over a connection-window alphabet after a third stream used up 65531 / 65535 bytes of the connection window, MAX_FRAME_SIZE histories (raise, lower, back to default) with payloads above a frame; plus 24 concurrent DATA/WINDOW_UPDATE script pairs under schedule exploration", len(scen))
-	rep.Coverage["explanation"] = "states = distinct ledger states (windows, pending bytes, max frame size) summed over shards; every history is replayed on a fresh real relay (no deduplication)"
-	rep.Assumptions = []string{"2 streams; sizes and increments from the alphabet", "a lowering of MAX_FRAME_SIZE is judged only when no accepted DATA is still queued in the relay (otherwise the history is cut there)", "I4 at the granularity of the relay's own frames (no obligation to split a frame to fit a smaller window)"}
+	rep.Coverage["bounds"] = fmt.Sprintf("%d scenarios: all event histories (21-event alphabet to depth 3 (quick) / 4 (thorough), 12-event alphabet to depth 4 / 5) from receiver initial windows {0,4,default}, both directions, each event followed by run-to-quiescence and invariants I1-I4 evaluated in every state; plus histories over a connection-window alphabet after a third stream used up 65531 / 65535 bytes of the connection window, MAX_FRAME_SIZE histories (raise, lower, back to default) with payloads above a frame; plus 24 concurrent DATA/WINDOW_UPDATE script pairs under schedule exploration; plus the audit families (depth 3 quick / 4-5 thorough each): duplex histories (DATA and grants in both directions, both directions judged), duplex with the connection window used up, MAX_FRAME_SIZE lowered with DATA queued and the lowering acknowledged, END_STREAM on DATA with and without payload and empty frames around windows <= 0, values at 2^31-1, MAX_FRAME_SIZE of both endpoints with duplex payloads above a frame, padding limits, stream processor factories, grants from a stalled receiver after bursts of 16/17/40 frames, 8 concurrent duplex script pairs", len(scen))
+	rep.Coverage["explanation"] = "states = distinct ledger states (windows, pending bytes, max frame size; both directions in duplex scenarios) summed over shards; every history is replayed on a fresh real relay (no deduplication); family_* = executions per family (core = the families that existed before the audit)"
+	rep.Assumptions = []string{"2 streams (3 when a third one uses up the connection window); sizes and increments from the alphabets", "a lowering of MAX_FRAME_SIZE announced while accepted DATA is still queued binds those queued frames from the moment the receiver has seen the lowering SETTINGS frame acknowledged (RFC 7540 section 6.5.3); until then frames of the old size are accepted", "I4 at the granularity of the relay's own frames (no obligation to split a frame to fit a smaller window); an empty DATA frame is owed only if it carries END_STREAM and neither window is negative", "receivers that grant a window above 2^31-1 are outside the space"}
 	rep.Finish()
 }
